@@ -49,6 +49,11 @@ func logErfc8(x float64) float64 {
     2.2605285207673269695918669450,
     1.0000000000000000000000000000 })
 
+  if x > 1e50 {
+    // P(x) and Q(x) overflow, use erfc(x) ~ exp(-x^2)/(x sqrt(pi)),
+    // which also gives -Inf for x = +Inf
+    return -x*x - math.Log(x*M_SQRTPI)
+  }
   e := P.Eval(x)/Q.Eval(x)
   e  = math.Log(e) - x*x
   return e
